@@ -108,11 +108,9 @@ def discharge(ob, timeout_s=None, want_model=True):
     t0 = time.time()
     if isinstance(ob.goal, bool):
         ob.goal = z3.BoolVal(ob.goal)
-    tries = [("z3-api", {}), ("z3-api/seed7", {"random_seed": 7, "smt.arith.solver": 2})]
-    res = z3.unknown
-    for label, opts in tries:
+    def z3_try(label, opts, tmo):
         s = z3.Solver()
-        s.set("timeout", int(timeout_s * 1000))
+        s.set("timeout", int(tmo * 1000))
         for k, v in opts.items():
             try:
                 s.set(k, v)
@@ -125,33 +123,41 @@ def discharge(ob, timeout_s=None, want_model=True):
             res = s.check()
         except z3.Z3Exception as e:  # pragma: no cover
             ob.note += " z3 exception: %s" % e
-            res = z3.unknown
-        ob.backend = label
+            return False
         if res == z3.unsat:
-            ob.status = "proved"
-            break
+            ob.status, ob.backend = "proved", label
+            return True
         if res == z3.sat:
-            ob.status = "failed"
+            ob.status, ob.backend = "failed", label
             if want_model:
                 try:
                     ob.model = _model_dict(s.model())
                 except Exception as e:  # pragma: no cover
                     ob.model = {"_error": str(e)}
-            break
-    if res == z3.unknown:
+            return True
+        return False
+
+    def cli_try(label, cmd, tmo):
         smt2 = ob.formula_smt2()
-        for label, cmd in (("cvc5-cli", ["/usr/bin/cvc5", "--tlimit=%d" % int(timeout_s * 1000)]),
-                           ("z3-4.8-cli", ["/usr/bin/z3", "-T:%d" % int(timeout_s)])):
-            text = smt2 if label != "cvc5-cli" else "(set-logic ALL)\n" + smt2
-            r = _cli(cmd, text, timeout_s)
-            if r == "unsat":
-                ob.status, ob.backend = "proved", label
-                break
-            if r == "sat":
-                # a sat answer from a CLI back end carries no model here; keep it undecided
-                ob.note += " %s says sat (no model extracted)" % label
-        if ob.status is None:
-            ob.status = "unknown"
+        text = smt2 if label != "cvc5-cli" else "(set-logic ALL)\n" + smt2
+        r = _cli(cmd, text, tmo)
+        if r == "unsat":
+            ob.status, ob.backend = "proved", label
+            return True
+        if r == "sat":
+            # a sat answer from a CLI back end carries no model here; keep it undecided
+            ob.note += " %s says sat (no model extracted)" % label
+        return False
+
+    # portfolio: short z3, cvc5, then z3 at the full budget with two configurations, then z3 4.8
+    short = max(2.0, timeout_s / 6.0)
+    done = (z3_try("z3-api", {}, short)
+            or cli_try("cvc5-cli", ["/usr/bin/cvc5", "--tlimit=%d" % int(timeout_s * 1000)], timeout_s)
+            or z3_try("z3-api", {}, timeout_s)
+            or z3_try("z3-api/seed7", {"random_seed": 7, "smt.arith.solver": 2}, timeout_s)
+            or cli_try("z3-4.8-cli", ["/usr/bin/z3", "-T:%d" % int(timeout_s)], timeout_s))
+    if not done or ob.status is None:
+        ob.status = "unknown"
     ob.secs = time.time() - t0
     return ob
 
